@@ -246,6 +246,25 @@ def step_prove(prop, props_rel):
     return info
 
 
+def step_coqchk(props_rel):
+    """thorough tier: independent re-check of the property's .vo and everything it depends on"""
+    mod = LIBNAME + '.' + props_rel[:-2].replace('/', '.')
+    rc, out = run(['timeout', '1800', 'coqchk', '-silent', '-o', '-Q', '.', LIBNAME, mod], cwd=COQ, timeout=1830)
+    m = re.search(r'\* Axioms:(.*?)\n\s*\n\* Constants/Inductives relying on type-in-type:(.*?)\n\s*\n'
+                  r'\* Constants/Inductives relying on unsafe \(co\)fixpoints:(.*?)\n\s*\n'
+                  r'\* Inductives whose positivity is assumed:(.*?)\n', out, re.S)
+    res = {'rc': rc}
+    if m:
+        res.update(axioms=m.group(1).strip(), type_in_type=m.group(2).strip(),
+                   unsafe_fixpoints=m.group(3).strip(), assumed_positivity=m.group(4).strip())
+        res['clean'] = rc == 0 and all(res[k] == '<none>' for k in
+                                       ('axioms', 'type_in_type', 'unsafe_fixpoints', 'assumed_positivity'))
+    else:
+        res['clean'] = False
+        res['tail'] = out[-1500:]
+    return res
+
+
 # ---------------------------------------------------------------- driver
 def step_driver(prop, drv_rel):
     """Extract Extract/Drv<id>.v's dispatch and link it with ocaml/main.ml.  Cached on content hash."""
@@ -375,6 +394,12 @@ def main_check(prop, cfg, tier, seed, replay=None):
         log('make failed:\n' + make_out[-3000:])
     prove = step_prove(prop, cfg['props'])
     exe, drv_msg, stale = step_driver(prop, cfg['driver'])
+    chk = None
+    if tier == 'thorough' and not replay and ok_make:
+        chk = step_coqchk(cfg['props'])
+        ev_extra['coqchk'] = chk
+        if not chk['clean']:
+            prove['failed'].append('coqchk -o reports axioms or failed: %r' % (chk,))
     log('prove: %d/%d discharged; driver: %s' % (prove['discharged'], prove['obligations'], drv_msg))
 
     proof_broken = []
